@@ -904,3 +904,155 @@ pub fn run_big_fault(case: &MemBuildCase, fault_write_at: Option<usize>) -> BigR
     out.digest = d.finish();
     out
 }
+
+// ------------------------------- C01: address deltas at pack-size boundaries
+
+/// A map whose root has a transition with an address delta of EXACTLY
+/// `target` bytes (pack-size boundaries 2^8, 2^16, 2^24 and neighbours):
+/// the first key's sub-automaton is compiled first, filler keys follow, and a
+/// last key "z" + "e"*p pads the distance (each 'e' adds a one-byte node).
+/// The padding is computed from the measured distance of a trial build.
+#[derive(Clone, Debug, PartialEq, Eq)]
+pub struct DeltaCase {
+    pub target: u64,
+    pub seed: u64,
+}
+
+fn delta_keys(n: u64, seed: u64, pad: u64) -> (KeyFamily, u64, Vec<u8>) {
+    let fam = KeyFamily { n: std::cmp::max(n, 1), fanout: 26, keylen: 12, seed, pairs: false, leaf_fan: 0, decreasing: false };
+    let mut last = vec![b'z'];
+    last.extend(std::iter::repeat(b'e').take(pad as usize));
+    (fam, n, last)
+}
+
+fn delta_build(n: u64, seed: u64, pad: u64) -> Vec<u8> {
+    let (fam, n, last) = delta_keys(n, seed, pad);
+    let mut b = fst::MapBuilder::memory();
+    b.insert(b"Ab", 7).expect("harness: delta build");
+    let mut key = Vec::new();
+    for i in 0..n {
+        fam.key_into(i, &mut key);
+        b.insert(&key, fam.value(i)).expect("harness: delta build");
+    }
+    b.insert(&last, 9).expect("harness: delta build");
+    b.into_inner().expect("harness: delta build")
+}
+
+/// Distance between the first byte of the root node and the node its first
+/// transition points to, as the format defines a delta.
+fn root_first_delta(bytes: &[u8]) -> Option<u64> {
+    let f = fst::raw::Fst::new(bytes).ok()?;
+    let root = f.root();
+    if root.len() == 0 {
+        return None;
+    }
+    let start = root.addr() + 1 - root.as_slice().len();
+    Some((start - root.transition_addr(0)) as u64)
+}
+
+/// Find (n, pad) such that the root's first transition has a delta of
+/// exactly `target`: n filler keys bring the distance close, pad finishes it.
+fn delta_fit(target: u64, seed: u64) -> Option<(u64, u64, Vec<u8>)> {
+    // bytes of output per filler key, from a sample
+    let per_key = if target > 50_000 {
+        let d = root_first_delta(&delta_build(4_000, seed, 1))? as f64;
+        d / 4_000.0
+    } else {
+        13.0
+    };
+    let mut n = if target < 600 { 0 } else { ((target - 400) as f64 / (per_key * 1.004)) as u64 };
+    let mut pad = 1u64;
+    for _ in 0..8 {
+        let bytes = delta_build(n, seed, pad);
+        let d = root_first_delta(&bytes)?;
+        if d == target {
+            return Some((n, pad, bytes));
+        }
+        if d < target {
+            // every further 'e' of the last key adds a one-byte node
+            pad += target - d;
+        } else if pad > 1 + (d - target) {
+            pad -= d - target;
+        } else {
+            let drop = ((d - target) as f64 / per_key) as u64 + 20;
+            n = n.saturating_sub(drop);
+            pad = 1;
+        }
+    }
+    None
+}
+
+pub fn run_delta_boundary(case: &DeltaCase) -> BigRun {
+    let mut out = BigRun { violation: None, digest: 0, bytes: 0, short: 0, intr: 0 };
+    let r = catch_unwind(AssertUnwindSafe(|| -> Option<Violation> {
+        let (n, pad, bytes) = match delta_fit(case.target, case.seed) {
+            Some(x) => x,
+            // the construction did not converge: nothing is judged (counted
+            // in the evidence as a miss of the probe, not as a violation)
+            None => return None,
+        };
+        out.bytes = bytes.len() as u64;
+        let mut d = Digest::new();
+        d.bytes(&bytes[..std::cmp::min(bytes.len(), 4096)]);
+        d.u64(bytes.len() as u64);
+        out.digest = d.finish();
+        if let Some(dd) = root_first_delta(&bytes) {
+            out.short = (dd == case.target) as u64;
+            out.intr = dd;
+        }
+        if let Some(v) = crate::oracle::check_footer("C01", &bytes) {
+            return Some(v);
+        }
+        let f = match fst::raw::Fst::new(&bytes[..]) {
+            Ok(f) => f,
+            Err(e) => return viol("C01.readback_failed", format!("{:?}", e)),
+        };
+        let (fam, n, last) = delta_keys(n, case.seed, pad);
+        if f.len() as u64 != n + 2 {
+            return viol("C01.len_or_is_empty_wrong", format!("len()={} for {} keys", f.len(), n + 2));
+        }
+        let mut s = f.stream();
+        let mut i = 0u64;
+        let mut key = Vec::new();
+        while let Some((k, v)) = s.next() {
+            let (wk, wv): (&[u8], u64) = if i == 0 {
+                (b"Ab", 7)
+            } else if i <= n {
+                fam.key_into(i - 1, &mut key);
+                (&key[..], fam.value(i - 1))
+            } else if i == n + 1 {
+                (&last[..], 9)
+            } else {
+                return viol("C01.content_differs_from_model", "more entries than keys".into());
+            };
+            if k != wk || v.value() != wv {
+                return viol(
+                    "C01.content_differs_from_model",
+                    format!(
+                        "entry {} of a map whose root has a transition with address delta {}: got {}={} want {}={}",
+                        i,
+                        case.target,
+                        crate::front::hex(&k[..std::cmp::min(k.len(), 16)]),
+                        v.value(),
+                        crate::front::hex(&wk[..std::cmp::min(wk.len(), 16)]),
+                        wv
+                    ),
+                );
+            }
+            i += 1;
+        }
+        if i != n + 2 {
+            return viol("C01.content_differs_from_model", format!("{} entries, want {}", i, n + 2));
+        }
+        // the far transition itself: a point look-up through it
+        if f.get(b"Ab").map(|o| o.value()) != Some(7) {
+            return viol("C01.content_differs_from_model", "get(\"Ab\") through the far transition".into());
+        }
+        None
+    }));
+    out.violation = match r {
+        Ok(v) => v,
+        Err(p) => viol("C01.reader_panicked", panic_msg(p)),
+    };
+    out
+}
